@@ -1,5 +1,5 @@
 /-
-`Address.to_str`, `is_b64`, `__eq__`, `__hash__` regenerated from boc/address.py (Generated/AddrFull.lean) equal the hand model
+`Address.to_str`, `is_b64`, `is_hex`, `__init__` (tuple / Address / str argument), `__eq__`, `__hash__` regenerated from boc/address.py (Generated/AddrFull.lean) equal the hand model
 (Model/Address.lean) for ALL addresses, flag combinations and texts.  Generation dependent.
 -/
 import TonVerif.Generated.AddrFull
@@ -53,8 +53,8 @@ theorem src_to_str_eq (a : Addr) (uf url b t : Bool) :
       cases Model.crc16 (_ :: w :: a.hash) <;> cases url <;> simp
 
 /-- `is_b64(text)` on a fresh object (both flags `False`) regenerated = `Model.Address.isB64` (the attributes left behind) -/
-theorem src_is_b64_eq (s : List Char) (h0 : Bytes) (wc0 : Int) :
-    is_b64 (addr := s) (self_hash_part := h0) (self_is_bounceable := false) (self_is_test_only := false) (self_wc := wc0) =
+theorem src_is_b64_eq (s : List Char) :
+    is_b64 (addr := s) (self_is_bounceable := false) (self_is_test_only := false) =
       (isB64 s).map fun a => (a.hash, a.bounceable, a.testOnly, a.wc) := by
   unfold is_b64 isB64
   cases hd : Base64.decodeUrlsafe s with
@@ -86,6 +86,45 @@ theorem src_is_b64_eq (s : List Char) (h0 : Bytes) (wc0 : Int) :
           cases Model.crc16 (List.take 34 (tag0 :: rest)) <;> simp [h1, h2, b1, b2] <;> (try (split <;> rename_i hx <;> split <;> rename_i hy <;> first | rfl | exact absurd hy.symm hx | exact absurd hx.symm hy))
         · have b2 : (tag0 ^^^ 128 == 17) = false := by simp [h2]
           cases Model.crc16 (List.take 34 (tag0 :: rest)) <;> simp [h1, h2, b1, b2] <;> (try (split <;> rename_i hx <;> split <;> rename_i hy <;> first | rfl | exact absurd hy.symm hx | exact absurd hx.symm hy))
+
+/-- `is_hex(text)` regenerated = `Model.Address.isHex` (`none` = returns False; the attributes assigned on True) -/
+theorem src_is_hex_eq (s : List Char) :
+    is_hex (addr := s) = (isHex s).map fun a => (a.hash, a.wc) := by
+  unfold is_hex isHex
+  rcases hsp : splitColon s with _ | ⟨w, _ | ⟨h, _ | ⟨x, r⟩⟩⟩ <;> simp only [Py.unpack2?, Option.bind_none, Option.bind_some, Option.map_none]
+  cases pyInt 16 h <;> cases pyInt 10 w <;> cases pyFromHex h <;> rfl
+
+/-- what `is_hex` leaves behind never carries a flag -/
+theorem isHex_flags (s : List Char) (a : Addr) (h : isHex s = some a) : a.bounceable = false ∧ a.testOnly = false := by
+  unfold isHex at h
+  rcases hsp : splitColon s with _ | ⟨w, _ | ⟨hh, _ | ⟨x, r⟩⟩⟩ <;> rw [hsp] at h <;> simp only at h <;> try cases h
+  cases h1 : pyInt 16 hh <;> cases h2 : pyInt 10 w <;> cases h3 : pyFromHex hh <;> rw [h1, h2, h3] at h <;> simp only at h <;> try cases h
+  exact ⟨rfl, rfl⟩
+
+/-- `Address(text)` regenerated (`__init__` for a `str` argument: flags reset, `is_hex`, else `is_b64`, else raise) = `Model.Address.parse` -/
+theorem src_init_str_eq (s : List Char) :
+    init_str (address := s) = (parse s).map fun a => (a.hash, a.bounceable, a.testOnly, a.wc) := by
+  unfold init_str parse
+  simp only [decide_false, decide_true, src_is_hex_eq, src_is_b64_eq]
+  cases hh : isHex s with
+  | none => cases isB64 s <;> rfl
+  | some a =>
+    obtain ⟨h1, h2⟩ := isHex_flags s a hh
+    simp [h1, h2]
+
+/-- `Address((wc, hash_part))` regenerated = `Model.Address.ofTuple` -/
+theorem src_init_tuple_eq (wc : Int) (h : Bytes) :
+    init_tuple (address := (wc, h)) = some (h, false, false, wc) ∧ ofTuple wc h = { wc := wc, hash := h, bounceable := false, testOnly := false } := by
+  refine ⟨?_, rfl⟩
+  unfold init_tuple
+  simp
+
+/-- `Address(other)` regenerated = `Model.Address.ofAddr`: workchain and hash copied, the flags NOT -/
+theorem src_init_addr_eq (a : Addr) :
+    init_addr (address := a) = some (a.hash, false, false, a.wc) ∧ ofAddr a = { wc := a.wc, hash := a.hash, bounceable := false, testOnly := false } := by
+  refine ⟨?_, rfl⟩
+  unfold init_addr
+  simp
 
 /-- `a == b` and `a.__hash__()` regenerated = the model's -/
 theorem src_eq_eq (a b : Addr) : Generated.AddrFull.eq (self_wc := a.wc) (self_hash_part := a.hash) (other := b) = some (Address.eq a b) := by
